@@ -6,9 +6,11 @@
 package main
 
 import (
+	"context"
 	"encoding/json"
 	"fmt"
 	"reflect"
+	"sort"
 	"strings"
 
 	metav1 "k8s.io/apimachinery/pkg/apis/meta/v1"
@@ -16,17 +18,22 @@ import (
 	genericapirequest "k8s.io/apiserver/pkg/endpoints/request"
 	"k8s.io/apiserver/pkg/registry/rest"
 
+	apiequality "k8s.io/apimachinery/pkg/api/equality"
+	"k8s.io/apiserver/pkg/admission"
+
 	"github.com/kubewharf/apiserver-runtime/pkg/registry"
 	"github.com/kubewharf/apiserver-runtime/pkg/scheme"
 
 	gatewayinstall "github.com/kubewharf/kubegateway/pkg/apis/install"
 	proxyv1alpha1 "github.com/kubewharf/kubegateway/pkg/apis/proxy/v1alpha1"
 
+	upstreamclusteradmission "github.com/kubewharf/kubegateway/plugin/admission/upstreamcluster"
+
 	"verifh/ev"
 	"verifh/kit"
 )
 
-const nDims = 10 // 7 yes/no dimensions + a 2-bit annotation shape (bits 7-8) + "no labels at all" (bit 9)
+const nDims = 11 // 7 yes/no dimensions + a 2-bit annotation shape (bits 7-8) + "no labels at all" (bit 9) + "an annotation with an empty value is added" (bit 10)
 
 var dimNames = []string{"labels", "annotations", "spec-scalar", "spec-nested", "status", "generation", "finalizers", "annotation-key-removed", "annotation-key-added"}
 
@@ -45,6 +52,13 @@ func meta(diff uint, gen int64) metav1.ObjectMeta {
 		Labels: map[string]string{"l": "1"}, Annotations: map[string]string{"a": "1", "b": "1"}, Finalizers: []string{"f1"}}
 	if diff&1 != 0 {
 		m.Labels = map[string]string{"l": "2", "m": "x"}
+	}
+	if diff&1024 != 0 {
+		// a key whose value is the empty string: present, but the kind of entry a tidy-up step likes to drop
+		if m.Annotations == nil {
+			m.Annotations = map[string]string{}
+		}
+		m.Annotations["e"] = ""
 	}
 	if diff&512 != 0 {
 		m.Labels = nil // an object without labels: stored that way it is the shape a "restore the old labels" step can mishandle
@@ -139,6 +153,9 @@ func diffNames(d uint) string {
 	if d&512 != 0 {
 		s += "no-labels "
 	}
+	if d&1024 != 0 {
+		s += "annotation-with-empty-value "
+	}
 	if s == "" {
 		return "(none)"
 	}
@@ -164,6 +181,9 @@ func labels(o runtime.Object) map[string]string {
 	}
 	return nil
 }
+
+// same: by value - nil and empty maps / lists are the same value (what storage hands back for them)
+func same(a, b interface{}) bool { return apiequality.Semantic.DeepEqual(a, b) }
 
 func annotations(o runtime.Object) map[string]string {
 	switch x := o.(type) {
@@ -216,12 +236,14 @@ func chains(c *ev.Check, k kind, g0 int64, maxGen int64) {
 					c.Violation("chain/update-failed", fmt.Sprintf("%s after %s: %v %s", k.name, path, err, p), nil)
 					continue
 				}
-				specSame := reflect.DeepEqual(k.spec(obj), k.spec(n.o))
-				annSame := reflect.DeepEqual(annotations(k.mk(d, 0)), annotations(n.o))
+				// judged on what the step STORES (obj after the strategy ran), not on what was submitted: a step that
+				// drops part of the submission must not count it as a change either
+				specSame := same(k.spec(obj), k.spec(n.o))
+				annSame := same(annotations(obj), annotations(n.o))
 				replay := map[string]interface{}{"kind": k.name, "history": path, "start_generation": g0}
 				if e == "main" {
 					want := gen(n.o)
-					if !reflect.DeepEqual(k.spec(k.mk(d, 0)), k.spec(n.o)) || !annSame {
+					if !specSame || !annSame {
 						want++
 					}
 					if gen(obj) != want {
@@ -254,13 +276,144 @@ func chains(c *ev.Check, k kind, g0 int64, maxGen int64) {
 	}
 }
 
+// ------------------------------------------------------------------ the whole write pipeline of an UpstreamCluster
+// admission plugin (normalises the rules) -> rest.BeforeCreate / BeforeUpdate with the registered strategy -> storage
+// round trip (JSON: what comes back from the store has nil where a list was empty). A client that submits the SAME
+// manifest again changes nothing; one that edits the spec changes the spec.
+
+var admitPlugin = upstreamclusteradmission.NewUpstreamClusterPlugin().(admission.MutationInterface)
+
+func admit(obj *proxyv1alpha1.UpstreamCluster, op admission.Operation) error {
+	gvk := proxyv1alpha1.SchemeGroupVersion.WithKind("UpstreamCluster")
+	gvr := proxyv1alpha1.SchemeGroupVersion.WithResource("upstreamclusters")
+	var opts runtime.Object = &metav1.CreateOptions{}
+	if op == admission.Update {
+		opts = &metav1.UpdateOptions{}
+	}
+	a := admission.NewAttributesRecord(obj, nil, gvk, "", obj.Name, gvr, "", op, opts, false, nil)
+	return admitPlugin.Admit(context.TODO(), a, admission.NewObjectInterfacesFromScheme(scheme.Scheme))
+}
+
+func roundTrip(o *proxyv1alpha1.UpstreamCluster) *proxyv1alpha1.UpstreamCluster {
+	b, _ := json.Marshal(o)
+	out := &proxyv1alpha1.UpstreamCluster{}
+	_ = json.Unmarshal(b, out)
+	return out
+}
+
+func manifests() map[string]func() *proxyv1alpha1.UpstreamCluster {
+	mk := func(mut func(o *proxyv1alpha1.UpstreamCluster)) func() *proxyv1alpha1.UpstreamCluster {
+		return func() *proxyv1alpha1.UpstreamCluster {
+			o := &proxyv1alpha1.UpstreamCluster{ObjectMeta: metav1.ObjectMeta{Name: "obj"}}
+			o.Spec.Servers = []proxyv1alpha1.UpstreamClusterServer{{Endpoint: "https://a:1"}}
+			o.Spec.DispatchPolicies = []proxyv1alpha1.DispatchPolicy{{Strategy: proxyv1alpha1.RoundRobin, Rules: []proxyv1alpha1.DispatchPolicyRule{{Verbs: []string{"get", "list"}, APIGroups: []string{"*"}, Resources: []string{"pods"}}}}}
+			mut(o)
+			return o
+		}
+	}
+	return map[string]func() *proxyv1alpha1.UpstreamCluster{
+		"rule with the usual fields only (others omitted)": mk(func(*proxyv1alpha1.UpstreamCluster) {}),
+		"rule with every list field set": mk(func(o *proxyv1alpha1.UpstreamCluster) {
+			r := &o.Spec.DispatchPolicies[0].Rules[0]
+			r.ResourceNames, r.Users, r.UserGroups, r.NonResourceURLs = []string{"a"}, []string{"alice"}, []string{"g"}, []string{"/healthz"}
+			r.ServiceAccounts = []proxyv1alpha1.ServiceAccountRef{{Namespace: "ns", Name: "sa"}}
+		}),
+		"rule with explicit empty lists": mk(func(o *proxyv1alpha1.UpstreamCluster) {
+			r := &o.Spec.DispatchPolicies[0].Rules[0]
+			r.ResourceNames, r.Users, r.UserGroups, r.NonResourceURLs = []string{}, []string{}, []string{}, []string{}
+		}),
+		"rule that normalisation rewrites (* and inverted entries)": mk(func(o *proxyv1alpha1.UpstreamCluster) {
+			r := &o.Spec.DispatchPolicies[0].Rules[0]
+			r.Verbs, r.Resources, r.UserGroups = []string{"get", "*"}, []string{"-secrets", "pods"}, []string{"-system:masters"}
+		}),
+		"no policies, no flow control, annotations present": mk(func(o *proxyv1alpha1.UpstreamCluster) {
+			o.Spec.DispatchPolicies = nil
+			o.Annotations = map[string]string{"a": "1"}
+		}),
+		"explicitly empty annotations and labels": mk(func(o *proxyv1alpha1.UpstreamCluster) {
+			o.Annotations, o.Labels = map[string]string{}, map[string]string{}
+		}),
+		"two policies, flow control, logging": mk(func(o *proxyv1alpha1.UpstreamCluster) {
+			o.Spec.DispatchPolicies = append(o.Spec.DispatchPolicies, proxyv1alpha1.DispatchPolicy{Strategy: proxyv1alpha1.RoundRobin, FlowControlSchemaName: "s", Rules: []proxyv1alpha1.DispatchPolicyRule{{Verbs: []string{"*"}, NonResourceURLs: []string{"*"}}}})
+			o.Spec.FlowControl.Schemas = []proxyv1alpha1.FlowControlSchema{{Name: "s", FlowControlSchemaConfiguration: proxyv1alpha1.FlowControlSchemaConfiguration{MaxRequestsInflight: &proxyv1alpha1.MaxRequestsInflightFlowControlSchema{Max: 3}}}}
+			o.Spec.Logging.Mode = proxyv1alpha1.LogOn
+		}),
+	}
+}
+
+func pipeline(c *ev.Check) {
+	ctx := genericapirequest.NewContext()
+	main := registry.ClusterScopeStorageStrategySingleton
+	var names []string
+	ms := manifests()
+	for n := range ms {
+		names = append(names, n)
+	}
+	sort.Strings(names)
+	for _, n := range names {
+		viol := func(key, f string, a ...interface{}) {
+			c.Violation("pipeline/"+key, fmt.Sprintf("UpstreamCluster manifest [%s]: ", n)+fmt.Sprintf(f, a...), map[string]interface{}{"manifest": n})
+		}
+		// create
+		obj := ms[n]()
+		var err error
+		if p := kit.Try(func() {
+			if err = admit(obj, admission.Create); err == nil {
+				err = rest.BeforeCreate(main, ctx, obj)
+			}
+		}); p != "" || err != nil {
+			viol("create-failed", "%v %s", err, p)
+			continue
+		}
+		if obj.Generation != 1 {
+			viol("create-generation", "created with generation %d", obj.Generation)
+		}
+		stored := roundTrip(obj)
+		stored.ResourceVersion, stored.UID = "7", "uid-1"
+		// the same manifest again, k times: nothing changes, the generation stays
+		for k := 0; k < 3; k++ {
+			c.Add("pipeline_updates", 1)
+			sub := ms[n]()
+			sub.ResourceVersion, sub.UID = stored.ResourceVersion, stored.UID
+			if p := kit.Try(func() {
+				if err = admit(sub, admission.Update); err == nil {
+					err = rest.BeforeUpdate(main, ctx, sub, stored.DeepCopy())
+				}
+			}); p != "" || err != nil {
+				viol("update-failed", "%v %s", err, p)
+				break
+			}
+			if sub.Generation != stored.Generation {
+				viol("noop-update-bumps-generation", "the same manifest was submitted again (update #%d): generation %d -> %d although neither spec nor annotations changed; stored spec %s, submitted spec after admission %s", k+1, stored.Generation, sub.Generation, kit.JSON(stored.Spec), kit.JSON(sub.Spec))
+				break
+			}
+			stored = roundTrip(sub)
+			stored.ResourceVersion = "7"
+		}
+		// an edit of the spec: +1, once
+		c.Add("pipeline_updates", 1)
+		sub := ms[n]()
+		sub.ResourceVersion, sub.UID = stored.ResourceVersion, stored.UID
+		sub.Spec.Servers = append(sub.Spec.Servers, proxyv1alpha1.UpstreamClusterServer{Endpoint: "https://b:1"})
+		if p := kit.Try(func() {
+			if err = admit(sub, admission.Update); err == nil {
+				err = rest.BeforeUpdate(main, ctx, sub, stored.DeepCopy())
+			}
+		}); p == "" && err == nil && sub.Generation != stored.Generation+1 {
+			viol("spec-edit-generation", "a server was added: generation %d -> %d, expected +1", stored.Generation, sub.Generation)
+		}
+		c.Outcome("cases", "pipeline/"+n)
+	}
+}
+
 func main() {
 	c := ev.Start("C20", "exploration")
 	gatewayinstall.Install(scheme.Scheme)
 	c.Assume = []string{
 		"strategies are taken exactly as rest.go registers them: ClusterScopeStorageStrategySingleton (+DefaultStatusRESTStrategy around it) for UpstreamCluster, NewDefaultRESTStrategy(false,false) for RateLimitCondition; because UpstreamClusterStatus has no fields the same generic strategy pair is additionally driven with RateLimitCondition objects (a kind with real status fields)",
 		"objects enter through rest.BeforeCreate / rest.BeforeUpdate (k8s.io/apiserver registry), not through etcd-backed storage",
-		"nil versus empty annotation maps are not distinguished by the alphabet; on a status update whose annotations differ the generation is not judged (the statement does not say whether that counts)",
+		"nil versus empty maps/lists are the same value (the pipeline scenarios submit both spellings: the generation must not move); on a status update whose annotations differ the generation is not judged (the statement does not say whether that counts)",
+		"pipeline scenarios: the admission plugin's Admit, then rest.BeforeCreate/BeforeUpdate with the registered strategy, then a JSON round trip as storage does (nil for what was empty); etcd itself is not involved",
 	}
 	kinds := []kind{
 		ucKind(registry.ClusterScopeStorageStrategySingleton),
@@ -282,8 +435,8 @@ func main() {
 						c.Violation("update-failed", fmt.Sprintf("%s main update diff=%s: %v %s", k.name, diffNames(d), err, p), nil)
 						continue
 					}
-					specChanged := d&(4|8) != 0
-					annChanged := d&(2|128|256) != 0
+					specChanged := !same(k.spec(obj), k.spec(old))
+					annChanged := !same(annotations(obj), annotations(old))
 					want := g
 					if specChanged || annChanged {
 						want = g + 1
@@ -322,7 +475,7 @@ func main() {
 						if d&16 != 0 && reflect.DeepEqual(k.stat(obj), k.stat(old)) && k.name != "UpstreamCluster" {
 							c.Violation("status/status-not-updated", fmt.Sprintf("%s: status update did not store the submitted status", k.name), nil)
 						}
-						if !annChanged && gen(obj) != g {
+						if same(annotations(obj), annotations(old)) && gen(obj) != g {
 							c.Violation("status/generation-changed", fmt.Sprintf("%s: status update (diff [%s]) changed generation %d -> %d", k.name, diffNames(d), g, gen(obj)), nil)
 						}
 					}
@@ -353,12 +506,13 @@ func main() {
 			tasks = append(tasks, ev.Task{Name: fmt.Sprintf("chains/%s/g%d", k.name, g), Run: func() { chains(c, k, g, g+maxGen) }})
 		}
 	}
+	tasks = append(tasks, ev.Task{Name: "pipeline", Run: func() { pipeline(c) }})
 	c.RunTasks(tasks)
 	c.Finish(map[string]interface{}{
 		"states":              c.Counter("chain_states"),
 		"transitions":         c.Counter("chain_transitions"),
 		"evaluations":         c.Counter("updates") + c.Counter("creates"),
 		"distinct_nontrivial": c.DistinctCount("cases"),
-		"rule":                "full product: 3 strategy/kind configurations x old generation {0,1,7} x 2^7 subsets of {labels, annotation value, spec scalar, nested spec element, status, submitted generation, finalizers} x 4 annotation shapes {-, key removed, key added, all removed} x {labels present, no labels} differing between stored and submitted object; each through main update, status update (where served) and create. Distinct = (kind, entry point, subset, generation). Chains: breadth-first over every stored object reachable through the strategies themselves (dedup on the JSON form, generation growth capped), every (entry point x subset) step judged from each.",
+		"rule":                "full product: 3 strategy/kind configurations x old generation {0,1,7} x 2^7 subsets of {labels, annotation value, spec scalar, nested spec element, status, submitted generation, finalizers} x 4 annotation shapes {-, key removed, key added, all removed} x {labels present, no labels} differing between stored and submitted object; each through main update, status update (where served) and create. Distinct = (kind, entry point, subset, generation). Pipeline: 7 UpstreamCluster manifests (rules with omitted / explicit-empty / fully set / rewritten lists, empty maps, policies+flow control) created, submitted unchanged three times (generation must stay) and edited once (+1) through admission plugin -> strategy -> storage round trip. Chains: breadth-first over every stored object reachable through the strategies themselves (dedup on the JSON form, generation growth capped), every (entry point x subset) step judged from each.",
 	})
 }
